@@ -80,6 +80,10 @@ def run_harness(driver, scenarios, name, timeout=1200, env_extra=None, args=None
                            stderr=subprocess.STDOUT, text=True, timeout=timeout, errors="replace")
     except subprocess.TimeoutExpired:
         raise ToolError("harness driver %s timed out" % driver)
+    if p.returncode != 0 and driver in SIM_DRIVERS:
+        # the simulated memory is an artefact of the harness: a library that touches target memory directly (not through the
+        # functions the simulation replaces) cannot be followed there -- that is not a finding about the library
+        raise SimUnavailable("simulated driver %s died (rc=%s): the library touched memory the simulation does not back\n%s" % (driver, p.returncode, p.stdout[-1500:]))
     if p.returncode != 0:
         raise ToolError("harness driver %s failed rc=%s:\n%s" % (driver, p.returncode, p.stdout[-3000:]))
     groups = {}
